@@ -269,8 +269,8 @@ def json_decoder(obj_dict: dict[str, Any]) -> dict[str, Any] | Object | Alias | 
     Returns:
         An instance of a data class.
     """
-    # Load expressions.
-    if "cls" in obj_dict:
+    # Load expressions (a members dictionary can have a `cls` key too: its value is an object then, not a class name).
+    if isinstance(obj_dict.get("cls"), str):
         return _load_expression(obj_dict)
 
     # Load objects and parameters.
